@@ -83,12 +83,20 @@ static void sx_wd_fire(int sig)
 	fflush(stdout);
 	_exit(1);
 }
+static unsigned sx_wd_secs;
 static inline void sx_watchdog(const char *name, const char *ctx, unsigned secs)
 {
 	sx_wd_name = name;
 	sx_wd_ctx = ctx;
+	sx_wd_secs = secs;
 	signal(SIGALRM, sx_wd_fire);
 	alarm(secs);
+}
+/* the watchdog limits ONE operation of the code under test, not the enumeration: enumerators call this as they go */
+static inline void sx_tick(void)
+{
+	if(sx_wd_secs && (sx_evals & 63) == 0)
+		alarm(sx_wd_secs);
 }
 
 static inline void sx_sample(const char *fmt, ...)
